@@ -282,7 +282,16 @@ def _variants():
         V("auto-tuple-swapped", [replace_stmt(BI, "auto_bisc", "A = prop[0]", "A = prop[1]"), replace_stmt(BI, "auto_bisc", "B = prop[1]", "B = prop[0]")], "fire", "C17-A3"),
         V("auto-bad-branch-dropped", replace_stmt(BI, "auto_bisc", "if prop(perm): ...", "if prop(perm):\n    A[i].append(perm)"), "fire", "C17-A3"),
         V("auto-negated-routing", replace_stmt(BI, "auto_bisc", "if prop(perm): ...", "if not prop(perm):\n    B[i].append(perm)\nelse:\n    A[i].append(perm)"), "silent"),
+        V("bisc-test-every-shading", replace_expr(BS, "perm_contains_cl_patt_many_shadings", "any((shit_boxes.intersection(R) == set([]) for R in Rs))", "all((shit_boxes.intersection(R) == set([]) for R in Rs))"), "fire", "C17-K2"),
+        V("bisc-test-delegates-all", replace_stmt(BS, "perm_contains_cl_patt_many_shadings", "for candidate_indices in patt.occurrences_in(perm): ...", "return perm.contains(*(MeshPatt(patt, R) for R in Rs))"), "fire", "C17-K2"),
+        V("bisc-table-test-every-pattern", replace_stmt(BS, "perm_contains_cl_patts_many_shadings", "for n in patts_w_shadings.keys(): ...",
+                                                        "return all((perm_contains_cl_patt_many_shadings(perm, pat, patts_w_shadings[n][pat]) for n in patts_w_shadings.keys() for pat in patts_w_shadings[n].keys()))"), "fire", "C17-K2"),
+        V("bisc-table-test-negated", replace_expr(BS, "perm_contains_cl_patts_many_shadings", "perm_contains_cl_patt_many_shadings(perm, pat, patts_w_shadings[n][pat])", "not perm_contains_cl_patt_many_shadings(perm, pat, patts_w_shadings[n][pat])"), "fire", "C17-K2"),
         # silent
+        V("bisc-test-delegates-any", replace_stmt(BS, "perm_contains_cl_patt_many_shadings", "for candidate_indices in patt.occurrences_in(perm): ...", "return any((perm.contains(MeshPatt(patt, R)) for R in Rs))"), "silent"),
+        V("bisc-test-loop-over-shadings", replace_stmt(BS, "perm_contains_cl_patt_many_shadings", "if any((shit_boxes.intersection(R) == set([]) for R in Rs)): ...", "for R in Rs:\n    if shit_boxes.isdisjoint(R):\n        return True"), "silent"),
+        V("bisc-table-test-any-form", replace_stmt(BS, "perm_contains_cl_patts_many_shadings", "for n in patts_w_shadings.keys(): ...",
+                                                   "return any((perm_contains_cl_patt_many_shadings(perm, pat, Rs) for d in patts_w_shadings.values() for pat, Rs in d.items()))"), "silent"),
         V("reformat-bisc-sub", reformat_only(BS), "silent"),
         V("bisc-swap-sides", replace_expr(BS, "perm_contains_cl_patt_many_shadings", "candidate_elt < element", "element > candidate_elt"), "silent"),
         V("rename-counter", [rename_local(BS, "perm_contains_cl_patt_many_shadings", "x", "col"), rename_local(BS, "perm_contains_cl_patt_many_shadings", "y", "row")], "silent"),
@@ -1108,3 +1117,91 @@ def run(ctx: Ctx) -> None:  # noqa: F811
 
 
 FLOORS["C17-A3"] = 5
+
+
+# ------------------------------------------------------------------ K2: the test the sanity checks use is 'some pattern, some shading'
+
+
+def _acceptance_nodes(fi: FuncInfo) -> List[ast.AST]:
+    """`S.intersection(R) == set()` / `not S.intersection(R)` / `S.isdisjoint(R)` nodes of a private test."""
+    out = []
+    for n in ast.walk(fi.node):
+        if isinstance(n, ast.Compare) and len(n.ops) == 1 and isinstance(n.ops[0], ast.Eq) and isinstance(n.left, ast.Call) and isinstance(n.left.func, ast.Attribute) \
+                and n.left.func.attr == "intersection" and unparse(n.comparators[0]) in ("set([])", "set()", "frozenset()"):
+            out.append(n)
+        elif isinstance(n, ast.UnaryOp) and isinstance(n.op, ast.Not) and isinstance(n.operand, ast.Call) and isinstance(n.operand.func, ast.Attribute) and n.operand.func.attr == "intersection":
+            out.append(n)
+        elif isinstance(n, ast.Call) and isinstance(n.func, ast.Attribute) and n.func.attr == "isdisjoint":
+            out.append(n)
+    return out
+
+
+def rule_k2(ctx: Ctx) -> None:
+    from ..core import parent_map
+    from ..skelrules import check_skeleton
+
+    repo = ctx.repo
+    mod = repo.module("permuta.bisc.bisc_subfunctions")
+    outer = mod.functions.get("perm_contains_cl_patts_many_shadings")
+    inner = mod.functions.get("perm_contains_cl_patt_many_shadings")
+    if outer is None or inner is None:
+        raise AnalysisError("the containment test used by the sanity checks (perm_contains_cl_patt[s]_many_shadings) was not found")
+    # (a) over the learned table: some length, some classical pattern
+    ctx.run(check_skeleton, ctx, "C17-K2", outer, [
+        "return any(perm_contains_cl_patt_many_shadings(a0, pat, a1[n][pat]) for n in a1.keys() for pat in a1[n].keys())",
+        "return any(perm_contains_cl_patt_many_shadings(a0, pat, a1[n][pat]) for n in a1 for pat in a1[n])",
+        "return any(perm_contains_cl_patt_many_shadings(a0, pat, Rs) for n in a1 for pat, Rs in a1[n].items())",
+        "return any(perm_contains_cl_patt_many_shadings(a0, pat, Rs) for d in a1.values() for pat, Rs in d.items())",
+    ], "a permutation is hit by the learned table iff some classical pattern of some length is contained with one of its shadings")
+    # (b) for one classical pattern with several shadings: some shading
+    if len(inner.params) != 3:
+        raise AnalysisError(f"{inner.where}: expected (perm, patt, shadings)")
+    rs = inner.params[2]
+    clones = [c for c in find_clones(repo) if c[0] is inner]
+    if clones:
+        acc = _acceptance_nodes(inner)
+        if len(acc) != 1:
+            raise AnalysisError(f"{inner.where}: {len(acc)} acceptance tests found")
+        par = parent_map(inner.node)
+        n = acc0 = acc[0]
+        verdict = None
+        while n in par:
+            p = par[n]
+            if isinstance(p, ast.GeneratorExp) and len(p.generators) == 1 and unparse(p.generators[0].iter) == rs and not p.generators[0].ifs:
+                q = par.get(p)
+                if isinstance(q, ast.Call) and isinstance(q.func, ast.Name) and q.func.id in ("any", "all") and p is q.args[0] and acc0 is p.elt:
+                    verdict = q.func.id
+                    holder = q
+                break
+            if isinstance(p, ast.For) and unparse(p.iter) == rs:
+                # for R in Rs: if <accept>: return True
+                ifs = [st for st in p.body if isinstance(st, ast.If)]
+                if len(p.body) == 1 and ifs and ifs[0].test is acc0 and len(ifs[0].body) == 1 and isinstance(ifs[0].body[0], ast.Return) \
+                        and isinstance(ifs[0].body[0].value, ast.Constant) and ifs[0].body[0].value.value is True and not ifs[0].orelse and not p.orelse:
+                    verdict, holder = "any", p
+                break
+            n = p
+        if verdict == "any":
+            ctx.ok("C17-K2", inner.where, f"an occurrence is accepted iff it respects SOME shading of `{rs}` (the learned patterns are alternatives)", holder, inner)
+        elif verdict == "all":
+            ctx.violation("C17-K2", inner, holder, f"an occurrence is accepted only if it respects EVERY shading in `{rs}`; the learned shadings of one classical pattern are separate mesh patterns, one of which suffices")
+        else:
+            raise AnalysisError(f"{inner.where}: how the acceptance test is quantified over `{rs}` is not recognised")
+    else:
+        ctx.run(check_skeleton, ctx, "C17-K2", inner, [
+            "return any(a0.contains(MeshPatt(a1, R)) for R in a2)",
+            "return any(MeshPatt(a1, R).contained_in(a0) for R in a2)",
+            "return any(MeshPatt(a1, R) in a0 for R in a2)",
+            "return not all(a0.avoids(MeshPatt(a1, R)) for R in a2)",
+        ], "delegating form: contained iff the permutation contains the mesh pattern (patt, R) for some learned shading R")
+
+
+_OLD_RUN6 = run
+
+
+def run(ctx: Ctx) -> None:  # noqa: F811
+    _OLD_RUN6(ctx)
+    ctx.run(rule_k2, ctx)
+
+
+FLOORS["C17-K2"] = 2
